@@ -433,11 +433,10 @@ as numpy.loadtxt will not work as expected."""
                   dtype=[(np.str_('<;'), '<i8'), (np.str_(';<'), '<i8')])
 
         """
-        return numpy.ndarray(
-            shape=self.shape,
-            dtype=[(key, self.dtype) for key in self.keys],
-            buffer=self.data,
-        )
+        # a plain-ndarray view of the same memory *with the same strides*
+        # (re-wrapping the raw buffer read transposed or otherwise
+        # non-contiguous polynomial views in memory order)
+        return self.view(numpy.ndarray)
 
     def isconstant(self) -> bool:
         """
